@@ -202,6 +202,10 @@ def run_transfer_case(prog, params):
             if 'C03' in props:
                 snap = snapshot(sr, u, 'S_', with_content=False, with_listing=False)
                 check_wellformed(sr, u, snap, key_base, findings)
+            if 'C05' in props:
+                from .onestep import consistency
+                snap5 = snapshot(sr, u, 'S_')
+                consistency(sr, u, snap5, None, key_base, findings, prefix='S_', walk=True)
             if 'C12' in props:
                 check_errors(sr, u, key_base, findings, start, [src, dst])
             if not res.samples:
